@@ -59,7 +59,155 @@ def gen_cases(tier, seed):
     cases += [{"id": f"c05-edit-after-kill-{seed}-{i}", "seed": seed * 7001 + 7000 + i, "points": per,
                "scenario": "edit_after_kill", "repeat": 2 if tier == "quick" else 6}
               for i in range(2 if tier == "quick" else 6)]
+    # kills during the watch phase, the rebuild it triggers and the shutdown of a watching director
+    cases += [{"id": f"c05-watch-{seed}-{i}", "seed": seed * 7001 + 8000 + i, "points": per, "kind": "watch"}
+              for i in range(4 if tier == "quick" else 60)]
     return cases
+
+
+def run_watch_case(case):
+    """A director in watch mode: first build, file-system events (those of C14), rebuild, shutdown.
+    Killed after a commit or at a scheduling point that follows the start of the watch phase, then
+    restarted without watch mode.  Reference: the same session uninterrupted, followed by the same
+    plain restart."""
+    from vmon.checks import c14
+    rng = random.Random(case["seed"])
+    counters = dict.fromkeys(["evaluations", "probe_failures", "child_not_killed", "watch_sessions",
+                              "watch_kills", "watch_kills_in_watch_phase", "watch_kills_in_rebuild",
+                              "watch_kills_at_shutdown", "watch_restarts_compared", "watch_fs_events",
+                              "watch_known_order_difference", "graph_compared"] + REQUIRED_COUNTERS, 0)
+    violations = []
+    classes = set()
+    witness = {"case": case["id"]}
+
+    def vio(mechanism, message):
+        if sum(1 for v in violations if v["mechanism"] == mechanism) < 2:
+            violations.append({"mechanism": mechanism, "message": f"{case['id']}: {message}",
+                               "witness": json.loads(json.dumps(witness, default=str))})
+
+    spec = gen.gen_project(rng)
+    env = dict(spec.get("env", {}))
+    cfg = {"njob": rng.choice([1, 2, 3]), "resources": "cpu:2,gpu:2", "watch": True}
+    plain = {k: v for k, v in cfg.items() if k != "watch"}
+    wspec = {"seed": rng.randrange(1 << 30), "nev": rng.choice([1, 2, 2, 3]),
+             "user_files": sorted(gen.user_files(spec))}
+    witness.update({"spec": spec, "watch": {k: wspec[k] for k in ("seed", "nev")}})
+    counters["projects"] += 1
+    cwd = os.getcwd()
+    os.makedirs("base")
+    try:
+        os.chdir("base")
+        gen.render(spec)
+        os.chdir(cwd)
+        shutil.copytree("base", "ref", symlinks=True)
+        os.chdir("ref")
+        proc, events = run_child({"cfg": cfg, "policy": "free", "seed": 1, "env": env, "crash": None, "watch": wspec})
+        done = [e for e in events if e["type"] == "done"]
+        start = [e for e in events if e["type"] == "watch_start"]
+        rebuild = [e for e in events if e["type"] == "rebuild_start"]
+        rebuilt = [e for e in events if e["type"] == "rebuild_end"]
+        if proc.returncode != 0 or not done or done[0]["error"] or not start or not rebuild or not rebuilt:
+            counters["probe_failures"] += 1
+            os.chdir(cwd)
+            return {"status": "inconclusive", "violations": [], "counters": counters,
+                    "reason": f"reference watch session failed rc={proc.returncode}: {proc.stderr[-500:]} {done[:1]}"}
+        counters["watch_sessions"] += 1
+        fs_events = [e["desc"] for e in events if e["type"] == "fs_event" and e["desc"]]
+        counters["watch_fs_events"] += len(fs_events)
+        witness["fs_events"] = fs_events
+        rb = H.run_build(plain, ctl=H.Controller("free", 1), env=env, timeout=90)
+        if rb.error is not None:
+            counters["probe_failures"] += 1
+            os.chdir(cwd)
+            return {"status": "inconclusive", "violations": [], "counters": counters,
+                    "reason": f"restart after the reference session failed: {rb.error[0]}"}
+        ref_rc = rb.returncode.value
+        ref_tree = c14.tree(".")
+        ref_graph, ref_globs = H.graph_text(attached_only=True)
+        os.chdir(cwd)
+        applied = [e for e in events if e["type"] == "events_applied"][0]
+        # crash points are counted from the moment the events are on disk: the number of commits of
+        # the first build phase may differ between two runs
+        c0 = applied["commits"]
+        c_rb, c_end, c1 = rebuild[0]["commits"] - c0, rebuilt[0]["commits"] - c0, done[0]["commits"] - c0
+        g1 = done[0]["gates"] - applied["gates"]
+        commits = list(range(1, c1 + 1))
+        rng.shuffle(commits)
+        budget = case["points"]
+        points = [{"commit_after_events": n} for n in sorted(set(commits[:budget] + list(range(c1 - 2, c1 + 1))))
+                  if 0 < n <= c1]
+        gates = list(range(1, g1 + 1))
+        points += [{"gate_after_events": n} for n in rng.sample(gates, min(len(gates), max(2, budget // 3)))]
+        for point in points:
+            shutil.rmtree("crash", ignore_errors=True)
+            shutil.copytree("base", "crash", symlinks=True)
+            os.chdir("crash")
+            try:
+                proc, events = run_child({"cfg": cfg, "policy": "free", "seed": 1, "env": env,
+                                          "crash": point, "watch": wspec})
+                killed = [e for e in events if e["type"] == "killed"]
+                if proc.returncode != -9 or not killed:
+                    counters["child_not_killed"] += 1
+                    continue
+                counters["kills"] += 1
+                counters["watch_kills"] += 1
+                kind = next(iter(point)).split("_")[0]
+                counters["kills_after_commit" if kind == "commit" else "kills_at_gate"] += 1
+                if kind == "commit":
+                    n = point["commit_after_events"]
+                    ph = "watch phase" if n <= c_rb else ("rebuild" if n <= c_end else "shutdown")
+                else:
+                    ph = "rebuild"
+                counters[{"watch phase": "watch_kills_in_watch_phase", "rebuild": "watch_kills_in_rebuild",
+                          "shutdown": "watch_kills_at_shutdown"}[ph]] += 1
+                if ph == "shutdown":
+                    counters["kills_during_cleanup"] += 1
+                if any(e["type"] == "cmd_start" for e in events) and kind == "gate":
+                    counters["kills_with_running_commands"] += 1
+                classes.add(repr(("watch", kind, ph)))
+                what = f"watch session with events {fs_events}: killed {killed[0]['why']} ({ph})"
+                b = H.run_build(plain, ctl=H.Controller("free", 1), env={**env, "STEPUP_DEBUG": "1"}, timeout=90)
+                counters["evaluations"] += 1
+                if b.error is not None:
+                    vio("restarted build raised", f"{what}: {b.error[0]}: {str(b.error[1])[-700:]}")
+                    continue
+                errors = [str(e["args"][1])[:300] for e in b.events if e["type"] == "report" and e["name"] == "report"
+                          and e["args"][0] == "ERROR"]
+                if errors:
+                    vio("restarted build reported an error", f"{what}: {errors[:2]}")
+                counters["restarts_compared"] += 1
+                counters["watch_restarts_compared"] += 1
+                graph, globs = H.graph_text(attached_only=True)
+                order = graph != ref_graph and c14.classify_graph_difference(ref_graph, graph) == c14.ORDER_MECH
+                if order:
+                    # the listed C14 finding: how far "pending" spreads depends on the order in
+                    # which a batch of changes is applied (watcher: observation order, startup scan:
+                    # its own order); not a consequence of the kill
+                    counters["watch_known_order_difference"] += 1
+                    continue
+                if b.returncode.value != ref_rc:
+                    vio("restarted build ends with another status than the uninterrupted build",
+                        f"{what}: {b.returncode} versus {ref_rc}")
+                    continue
+                now = c14.tree(".")
+                now.pop(".crash-events.jsonl", None)
+                diff = sorted(p for p in set(now) | set(ref_tree) if now.get(p) != ref_tree.get(p))
+                if diff:
+                    vio("outputs after the restart differ from the uninterrupted build", f"{what}: {diff[:4]}")
+                counters["graph_compared"] += 1
+                if graph != ref_graph or globs != ref_globs:
+                    ga, gb = set(ref_graph.split("\n\n")), set(graph.split("\n\n"))
+                    vio("workflow graph after the restart differs from the uninterrupted build",
+                        f"{what}: only reference {[x[:200] for x in sorted(ga - gb)[:2]]} only restart {[x[:200] for x in sorted(gb - ga)[:2]]}")
+            finally:
+                os.chdir(cwd)
+    finally:
+        os.chdir(cwd)
+        for d in ("base", "ref", "crash"):
+            shutil.rmtree(d, ignore_errors=True)
+    return {"status": "violation" if violations else "held", "violations": violations,
+            "counters": counters, "nontrivial": sorted(classes), "nontrivial_many": True,
+            "sample": {"case": case["id"], "classes": sorted(classes)[:4]}}
 
 
 def directed_redefined_output(hold):
@@ -101,6 +249,8 @@ def tree(root="."):
 
 
 def run_case(case):
+    if case.get("kind") == "watch":
+        return run_watch_case(case)
     rng = random.Random(case["seed"])
     counters = dict.fromkeys(["evaluations", "probe_failures", "child_not_killed", "restart_rc_nonzero",
                               "graph_compared", "files_compared", "restarts_with_slow_hash_threads", "restarts_after_an_edit",
